@@ -605,6 +605,14 @@ func genC03(o *Out, rng *rand.Rand, tier string) {
 			}
 		}
 	}
+	// the raw connection after a long life: 70 000 frames that are not for it, then its own (child process, 8 MB stack limit)
+	{
+		var bad []string
+		if r := rawLong(70000); r["panic"] != nil {
+			bad = append(bad, fmt.Sprint("BroadcastRawUDPConn.ReadFrom after 70000 foreign frames: ", r["panic"]))
+		}
+		emit("BroadcastRawUDPConn.ReadFrom(long-lived connection)", []byte("70000 foreign frames, then one for the bound port"), 2, bad, "raw-long-lived")
+	}
 	// (ii'') concurrent use: several goroutines decode the same datagrams - each its own copy, into its own value - and
 	// apply every read-only operation to their values at the same time (a server's goroutine-per-packet handlers do
 	// exactly that). Run in a child process: the runtime's "concurrent map writes" is fatal, not a panic.
